@@ -4,6 +4,6 @@ namespace Lumina.Gen.C44
 /-- `STORE_IF_IDX_ABOVE` from `grpc/grpc-macros/src/lib.rs` -/
 def STORE_IF_IDX_ABOVE : Nat := 0
 /-- `SWAP_WITH_POSITION` from `grpc/grpc-macros/src/lib.rs` -/
-def SWAP_WITH_POSITION : Nat := 1
+def SWAP_WITH_POSITION : Nat := 0
 
 end Lumina.Gen.C44
